@@ -54,6 +54,9 @@ class bit_vector {
 
         inline void resize(std::uint64_t size) {
             m_bits.resize(words_for(size), 0ULL);
+            if (size < m_size && size % 64 != 0) {
+                m_bits[size / 64] &= (1ULL << (size % 64)) - 1;  // clear the stale bits beyond the new size
+            }
             m_size = size;
         }
 
